@@ -112,7 +112,15 @@ def gen_runs(ctx, rs, n):
 
 
 def cuts_term(fname, cuts_obs, full_atoms):
-    return "chk_cuts %s [%s]" % (fname, "; ".join("(%d, %s)" % (k, gc.t_pobs(o, full_atoms)) for k, o in cuts_obs))
+    """run-length encoded: consecutive cut offsets with the same observation form one segment"""
+    segs = []
+    for k, o in cuts_obs:
+        t = gc.t_pobs(o, full_atoms)
+        if segs and segs[-1][2] == t and segs[-1][0] + segs[-1][1] == k:
+            segs[-1][1] += 1
+        else:
+            segs.append([k, 1, t])
+    return "chk_cuts %s [%s]" % (fname, "; ".join("(%d%%N, %d%%N, %s)" % (a, n, t) for a, n, t in segs))
 
 
 # ------------------------------------------------------------------ entry points
@@ -185,6 +193,7 @@ def correspondence(ctx):
                         "box_line_start": box_line_start(full), "accepted_cuts": [k for k, o in obs_all if o[0] == "ok"][:5]})
     # shipped files
     big_cases, big_meta = [], []
+    ship_cases, ship_meta = [], []
     for name, text, cuts in shipped(ctx):
         fa = full_read(text)
         obs = []
@@ -198,12 +207,12 @@ def correspondence(ctx):
         hist["shipped:" + name] = len(cuts)
         if len(text) <= 12000:
             try:
-                cases.append(cuts_term(gc.t_bytes(text), obs, fa))
-                meta.append({"kind": "shipped", "file": name, "what": "byte prefixes"})
+                ship_cases.append(cuts_term(gc.t_bytes(text), obs, fa))
+                ship_meta.append({"kind": "shipped", "file": name, "what": "byte prefixes"})
             except gc.Skip:
                 pass
-        else:
-            # one literal per shard (in the header), the cuts spread over several cases
+        elif not ctx.quick:
+            # thorough only: one literal per shard (in the header), the cuts spread over several cases
             step = 60
             try:
                 for i in range(0, len(obs), step):
@@ -220,6 +229,13 @@ def correspondence(ctx):
         return [{"error": "coqc failed on the correspondence cases", "log": log[-1500:]}]
     allcodes = [(meta[i], c) for i, c in codes.items()]
     total = len(cases)
+    codes, log = lib.run_coq_cases(ctx.cid, "Kship", gc.HEADER14, ship_cases, shard=1)
+    K["log_shipped"] = log
+    if codes is None:
+        K["error"] = log
+        return [{"error": "coqc failed on the correspondence cases (shipped files)", "log": log[-1500:]}]
+    allcodes += [(ship_meta[i], c) for i, c in codes.items()]
+    total += len(ship_cases)
     for name in sorted(set(n for n, _, _ in big_cases)):
         sel = [(t, c) for (n, t, c) in big_cases if n == name]
         msel = [m for (n, _, _), m in zip(big_cases, big_meta) if n == name]
